@@ -21,11 +21,11 @@ mod verif_cex_meta {
     fn cex_meta_hash() {
         let vals = [0u64, 1, 2, 0x0102030405060708, u64::MAX];
         for a in vals { for b in vals { for c in vals {
-            let m = Meta { meta_page: a as u32, magic: 0x00AB_CDEF, version: 1, pagesize: 4096 + b, root: BucketMeta { root_page: b, next_int: c },
+            let m = Meta { meta_page: a as u32, magic: 0x00AB_CDEF, version: 1, pagesize: 4096u64.wrapping_add(b), root: BucketMeta { root_page: b, next_int: c },
                            num_pages: a ^ c, freelist_page: b ^ 7, tx_id: c, hash: 0 };
             let want = fnv1a(&pinned(&m));
             let mut m2 = m.clone(); m2.hash = want;
-            if m.hash_self() != want || !m2.valid() || m.valid() == (want == 0 && false) && m.valid() {
+            if m.hash_self() != want || !m2.valid() || m.valid() != (want == 0) {
                 println!("CEX Meta::hash_self/valid: {:?} -> hash_self {:#x}; FNV-1a of the pinned 60 bytes is {:#x}", m, m.hash_self(), want);
                 panic!("contract of Meta::hash_self violated");
             }
